@@ -353,9 +353,31 @@ def _extend(children):
     )
 
 
+@st.composite
+def _rounded_to_boundary(draw):
+    """A comparison whose left operand is the OUTPUT of a rounding that lands on a field boundary (59.9996 minutes rounded to 3 places:
+    the object then holds 60.0 minutes) and whose right operand is the same angle held the ordinary way (next whole minute / degree)."""
+    cls = draw(st.sampled_from(["ddm", "dms"]))
+    n = draw(st.integers(0, 6))
+    frac = draw(S.floats(0.02, 0.45))
+    deg = draw(st.integers(0, 359))
+    sgn = draw(st.sampled_from([1.0, 1.0, -1.0]))
+    if cls == "ddm":
+        v, w = deg + (60.0 - frac * 10.0 ** -n) / 60.0, deg + 1.0
+    else:
+        m = draw(st.sampled_from([59, 59, 0, 17, 30]))
+        v, w = deg + m / 60.0 + (60.0 - frac * 10.0 ** -n) / 3600.0, deg + (m + 1) / 60.0
+    left = {"op": "round", "a": {"op": "leaf", "cls": cls, "v": sgn * v}, "n": n}
+    right = {"op": "leaf", "cls": draw(st.sampled_from(CLS + [cls, cls])), "v": sgn * w}
+    if draw(st.booleans()):
+        left, right = right, left
+    return {"op": draw(st.sampled_from(["eq", "ne", "lt", "gt"])), "l": left, "r": right}
+
+
 tree_s = st.recursive(leaf_s, _extend, max_leaves=8)
 root_s = st.one_of(tree_s, tree_s, tree_s,
                    st.builds(lambda o, l, r: {"op": o, "l": l, "r": r}, st.sampled_from(["eq", "ne", "lt", "gt"]), tree_s, tree_s),
+                   _rounded_to_boundary(),
                    # equal angles held in two different classes
                    st.builds(lambda o, c1, c2, v: {"op": o, "l": {"op": "leaf", "cls": c1, "v": v}, "r": {"op": "leaf", "cls": c2, "v": v}},
                              st.sampled_from(["eq", "ne", "lt", "gt"]), st.sampled_from(CLS), st.sampled_from(CLS), _wholeminute()))
